@@ -185,6 +185,37 @@ func init() {
 			}
 			return r
 		}
+		emit(apiCase{Desc: "value set with an interface-typed entry holding the zero value of a concrete type", Run: func() (fs []Finding) {
+			for _, named := range []bool{false, true} {
+				v := am.Value{Type: ifaceType}
+				if named {
+					v.Name = "lvl"
+				}
+				set, err := am.NewValueSet([]am.Value{v, {Name: "other", Type: typeOf(0)}})
+				if err != nil {
+					return []Finding{{"C15", "newvalueset", err.Error()}}
+				}
+				get := func(s *am.ValueSet) *am.Value {
+					if named {
+						return s.Named("lvl")
+					}
+					return s.Typed(ifaceType)
+				}
+				zero := reflect.New(ifaceType).Elem()
+				zero.Set(reflect.ValueOf(T3{})) // a non-nil interface holding T3's zero value
+				get(set).Value = zero
+				set.Named("other").Value = mkVal(0, "o")
+				fresh, _ := am.NewValueSet([]am.Value{v, {Name: "other", Type: typeOf(0)}})
+				fresh.FromSignature(set.SignatureValues())
+				got := get(fresh).Value
+				if !got.IsValid() || got.IsNil() {
+					fs = append(fs, Finding{"C15", "roundtrip-zero", fmt.Sprintf("named=%v: an interface-typed entry holding T3{} reads back as nil after FromSignature(SignatureValues())", named)})
+				} else if _, ok := got.Interface().(T3); !ok {
+					fs = append(fs, Finding{"C15", "roundtrip-zero", fmt.Sprintf("named=%v: entry reads back as %v", named, got)})
+				}
+			}
+			return
+		}})
 		sharedInputCases(lists, toLabels, emit)
 		for _, in := range lists {
 			for _, out := range lists {
@@ -529,6 +560,7 @@ func init() {
 			{Kind: "named", Name: "b", T: 0, V: "b1"},
 			{Kind: "named", Name: "B", T: 0, V: "b2"},
 			{Kind: "namedsub", Name: "A", Sub: "x", T: 0, V: "ax"},
+			{Kind: "namedsub", Name: "a", Sub: "", T: 0, V: "a0"}, // equivalent to Named("a", ...)
 			{Kind: "typed", T: 1, V: "t1"},
 			{Kind: "typed", T: 1, V: "t2"},
 			{Kind: "niltyped"},
